@@ -8,9 +8,11 @@ import (
 	"vharness/verif"
 )
 
+// c01Spec: quick = depth 1, wide (two keys, lists up to 2). Thorough = the quick family plus a deep
+// narrow one (depth 2 over one key, lists up to 1): 173 shapes per side instead of 23.
 func c01Spec() genSpec {
-	if verif.Tier() > 0 {
-		return genSpec{depth: 2, keys: []string{"a", "b"}, maxList: 2, prims: 2, mixed: true}
+	if verif.Tier() > 0 && verif.Choice("family", 2) == 1 {
+		return genSpec{depth: 2, keys: []string{"a"}, maxList: 1, prims: 1, mixed: true}
 	}
 	return genSpec{depth: 1, keys: []string{"a", "b"}, maxList: 2, prims: 1, mixed: true}
 }
